@@ -57,7 +57,13 @@ let seg_of s =
     | _ -> failwith "bad Z segment"
   end else bytes_of_hex s
 let segs_of s = if s = "_" || s = "" then [] else List.map seg_of (String.split_on_char ',' s)
-let caps_of s = if s = "-" || s = "_" then [] else List.map z_of_dec (String.split_on_char ',' s)
+(* table tokens: k = client k (0 = nil), n = promised client resolved to null (identity: nil),
+   r<k> = promised client resolved to client k (identity: k) -- identity is IsSame after resolution *)
+let cap_of_tok t =
+  if t = "n" then Z0
+  else if String.length t > 0 && t.[0] = 'r' then z_of_dec (String.sub t 1 (String.length t - 1))
+  else z_of_dec t
+let caps_of s = if s = "-" || s = "_" then [] else List.map cap_of_tok (String.split_on_char ',' s)
 let sel_of s = if s = "r" then SelRoot else SelField (z_of_dec (String.sub s 1 (String.length s - 1)))
 let cfg t d = { cfg_T = z_of_dec t; cfg_D = z_of_dec d; cfg_strict = true; cfg_root = true }
 let rdfix = { fx_depth = true; fx_upgrade = true; fx_bit = true }
@@ -82,6 +88,7 @@ let eout_s = function EOk true -> "T" | EOk false -> "F" | EErr -> "E" | EPanic 
 
 let c17 f =
   match f with
+  | kind :: _ when String.length kind >= 3 && String.sub kind 0 3 = "big" -> "big"
   | [_kind; same; _aa; at; ad; asegs; acaps; asel; _ba; bt; bd; bsegs; bcaps; bsel] ->
     let same = same = "1" in
     let ma = segs_of asegs and mb = segs_of bsegs in
@@ -99,6 +106,7 @@ let c17 f =
 
 let c18 f =
   match f with
+  | kind :: _ when String.length kind >= 3 && String.sub kind 0 3 = "big" -> "big"
   | [_kind; _group; _arena; t; d; segs; asel] ->
     let m = segs_of segs in
     let s = sel_of asel in
@@ -113,8 +121,8 @@ let c18 f =
       | Some (Some bs) ->
         "ok:" ^ hex_of_bytes bs,
         (match spec_recanon bs with
-         | Some bs' when bs' = bs -> "R1I1G1P1"
-         | _ -> "R1I1G1P0") in
+         | Some bs' when bs' = bs -> "R1I1G1P1K1J1"
+         | _ -> "R1I1G1P0K1J1") in
     Printf.sprintf "%s %s %s %s" res spec_s flags (tree_s tr)
   | _ -> "bad-case"
 
